@@ -81,7 +81,7 @@ def run(fx, R, d):
             'dL/dlat = (1-e^2)/((1-e^2 sin^2) cos): conformal', fx.rel(d['fiso']['loc']), 'E-ALG')
     # ---- secant parameters ------------------------------------------------------------------------
     defs = rsec.atom_defs
-    need = ('N1', 'N2', 'isolat0', 'isolat1', 'isolat2', 'coslat1', 'coslat2', 'n', 'c')
+    need = ('N1', 'N2', 'isolat1', 'isolat2', 'coslat1', 'coslat2', 'n', 'c')
     if any(k not in defs for k in need):
         R.undecided('A2', 'LambertConverter::computeProjectionParameters/secant', 'atoms missing: %s' % [k for k in need if k not in defs])
     else:
@@ -92,7 +92,7 @@ def run(fx, R, d):
             chk(R, okN, rN, 'A2', 'secant:N%s' % k, 'N%s is %s, not a/sqrt(1-e^2 sin^2 lat%s)' % (k, defs['N' + k], k), 'N%s = prime-vertical radius at parallel %s' % (k, k), loc_s, 'E-ALG')
             okC, rC = zero(defs['coslat' + k] - sp.cos(phi))
             chk(R, okC, rC, 'A2', 'secant:coslat%s' % k, 'coslat%s is %s' % (k, defs['coslat' + k]), 'coslat%s = cos(lat%s)' % (k, k), loc_s, 'E-ALG')
-        for k in ('0', '1', '2'):
+        for k in [k_ for k_ in ('0', '1', '2') if 'isolat' + k_ in defs]:
             want = Ldef.subs({lat: S('parameters.latitude' + k), e_: ee})
             okL, rL = zero(defs['isolat' + k] - want)
             chk(R, okL, rL, 'A2', 'secant:isolat%s' % k, 'isolat%s is not the isometric latitude (as used by toLambert) of latitude%s' % (k, k), 'isolat%s = L(lat%s)' % (k, k), loc_s, 'E-ALG')
@@ -118,7 +118,11 @@ def run(fx, R, d):
             R.check(rl == S('parameters.longitude0') and rn == n and rc == c and rx == S('parameters.x0'), 'W1', 'secant:aggregate-order/%s' % ('generic' if cond_true else 'polar'),
                     'returned aggregate is (%s, %s, %s, %s, ..), expected (longitude0, n, c, x0, ys)' % (rl, rn, rc, rx), 'aggregate = (longitude0, n, c, xs=x0, ys)', loc_s, 'E-SIB')
             if cond_true:
-                Y0 = ry - c * sp.exp(-n * L0)
+                # the origin (latitude0, longitude0) goes through the forward map to ys - c exp(-n L(latitude0; e of the ellipsoid)); an
+                # `isolat0` local, when there is one, is replaced by its definition so that the rule does not depend on how ys is spelled
+                L0true = Ldef.subs({lat: S('parameters.latitude0'), e_: ee})
+                ry_x = ry.subs(L0, defs['isolat0']) if 'isolat0' in defs else ry
+                Y0 = ry_x - c * sp.exp(-n * L0true)
                 ok0, r0 = zero(Y0 - S('parameters.y0'))
                 chk(R, ok0, r0, 'A3', 'secant:origin-y', 'the origin maps to y = y0 + (%s)' % r0, 'origin -> y0', loc_s, 'E-ALG')
     # ---- tangent parameters -----------------------------------------------------------------------------
@@ -155,7 +159,7 @@ def run(fx, R, d):
     oky, ry_ = zero(Ym - (ys_ - c_ * sp.exp(-n_ * L)))
     chk(R, oky, ry_, 'A3', 'toLambert:origin-ordinate', 'on the central meridian y = %s; with ys = y0 + c exp(-n L0) the origin then maps to y0 + (%s), non-zero when c < 0 (southern cones)' % (Ym, ry_),
             'y(lat, lon0) = ys - c exp(-n L(lat))', loc_f, 'E-ALG')
-    check_wiring(fx, R)
+    check_wiring(fx, R, d)
     check_inverse(fx, R, d, X, Y, L, Ldef, D)
 
 
@@ -180,33 +184,64 @@ def conformal_identity(Ldef, lat, e):
         return None, str(ex)
 
 
-def check_wiring(fx, R):
+def check_wiring(fx, R, d=None):
+    """W1 (value-based): each public constructor is read end to end (delegating constructors and computeProjectionParameters inlined);
+    the fields the maps read must receive: the eccentricity of the ellipsoid the parameters were computed on, and the five
+    parameters in their own slots (compared with the standalone reading of computeProjectionParameters, path by path)."""
+    from . import C03
     ctors = [f for f in fx.functions.values() if f.get('ctor') and f.get('cls') == 'romea::core::LambertConverter' and not f.get('copyctor')]
-    by = {len(f['params']): [] for f in ctors}
-    for f in ctors:
-        by[len(f['params'])].append(f)
-    six = by.get(6, [])
-    if len(six) == 1:
-        R.used(six[0])
-        inits = [(i.get('field'), deep_unwrap(sx(i['e']))) for i in six[0]['inits'] if i.get('field')]
-        want = [('longitude0_', 'longitude0'), ('n_', 'n'), ('c_', 'c'), ('xs_', 'xs'), ('ys_', 'ys'), ('e_', 'e')]
-        R.check(sorted(inits) == sorted(want), 'W1', 'LambertConverter(6 args)', 'field initialisation is %s' % inits, 'each field from its like-named argument', fx.rel(six[0]['loc']), 'E-SIB')
-    else:
-        R.undecided('W1', 'LambertConverter(6 args)', 'constructor not found')
-    for f in by.get(2, []):
+    want_fields = ('longitude0_', 'n_', 'c_', 'xs_', 'ys_', 'e_')
+    for f in sorted(ctors, key=lambda f_: f_['sig']):
+        np_ = len(f['params'])
+        kind = 'Secant' if 'Secant' in f['sig'] else 'Tangent' if 'Tangent' in f['sig'] else 'ProjectionParameters,e' if np_ == 2 else '%d args' % np_
+        inst = 'LambertConverter(%s)' % kind
         R.used(f)
-        dl = [deep_unwrap(sx(i['e'])) for i in f['inits'] if i.get('delegating')]
-        if 'ProjectionParameters &, const double &' in f['sig'] and 'Secant' not in f['sig'] and 'Tangent' not in f['sig']:
-            ok = len(dl) == 1 and dl[0][1:] == ('parameters.longitude0', 'parameters.n', 'parameters.c', 'parameters.xs', 'parameters.ys', 'e')
-            R.check(ok, 'W1', 'LambertConverter(ProjectionParameters,e)', 'delegation passes %s' % (dl,), 'passes (longitude0, n, c, xs, ys, e) in order', fx.rel(f['loc']), 'E-SIB')
+        try:
+            rd = sym.Reader(fx, call_hook=C03.hook)
+            rd.atoms = set(C03.ATOMS)
+            sts = rd.run(f)
+        except sym.Unsupported as u:
+            R.undecided('W1', inst, 'constructor not interpretable: %s' % u)
+            continue
+        ref = None
+        if kind in ('Secant', 'Tangent') and d is not None:
+            ref = d['ssec'] if kind == 'Secant' else d['stan']
+        bad = unknown = None
+        for n_, st in enumerate(sts):
+            got = {k: st.fields.get(('this', k)) for k in want_fields}
+            if any(v is None for v in got.values()):
+                unknown = unknown or 'field(s) %s not written' % [k for k, v in got.items() if v is None]
+                continue
+            if np_ == 6:
+                exp = {k: S('arg:' + k[:-1]) for k in want_fields}
+            elif kind == 'ProjectionParameters,e':
+                exp = {k: S('parameters.' + k[:-1]) for k in want_fields[:5]}
+                exp['e_'] = S('arg:e')
+            elif kind not in ('Secant', 'Tangent'):
+                unknown = unknown or 'a constructor this rule has no expectation for'
+                continue
+            else:
+                exp = {'e_': S('ellipsoid.e')}
+                if ref is not None and len(ref) == len(sts) and isinstance(ref[n_].ret, tuple) and len(ref[n_].ret) >= 5:
+                    exp.update(dict(zip(want_fields[:5], ref[n_].ret[:5])))
+            for k, w in exp.items():
+                g = got[k]
+                if g == w or (isinstance(g, sp.Basic) and isinstance(w, sp.Basic) and sp.simplify(g - w) == 0):
+                    continue
+                others = [k2 for k2, w2 in exp.items() if k2 != k and (g == w2)]
+                if k == 'e_':
+                    bad = bad or ('the eccentricity the maps of a converter built by %s use (e_) is `%s`, not the eccentricity %s of the ellipsoid its parameters were computed on: forward and inverse '
+                                  'maps then work on another ellipsoid than n, c, ys' % (inst, g, w))
+                elif others:
+                    bad = bad or ('field %s receives the value meant for %s (%s)' % (k, others[0], g))
+                else:
+                    unknown = unknown or 'field %s receives %s, expected %s' % (k, str(g)[:80], str(w)[:80])
+        if bad:
+            R.violated('W1', inst, bad, fx.rel(f['loc']), 'E-STATE')
+        elif unknown:
+            R.undecided('W1', inst, unknown)
         else:
-            ok = len(dl) == 1 and len(dl[0]) == 3 and dl[0][1][0].endswith('computeProjectionParameters') and dl[0][1][1:] == ('parameters', 'ellipsoid') and dl[0][2] == 'ellipsoid.e'
-            R.check(ok, 'W1', 'LambertConverter(%s)' % ('Secant' if 'Secant' in f['sig'] else 'Tangent'), 'delegation is %s' % (dl,), 'computeProjectionParameters(parameters, ellipsoid), ellipsoid.e',
-                    fx.rel(f['loc']), 'E-SIB')
-    rec = fx.records.get('romea::core::LambertConverter::ProjectionParameters')
-    if rec:
-        order = [f['name'] for f in rec['fields']]
-        R.check(order == ['longitude0', 'n', 'c', 'xs', 'ys'], 'W1', 'ProjectionParameters:field-order', 'aggregate field order is %s' % order, 'fields (longitude0, n, c, xs, ys)', None, 'E-SIB')
+            R.holds('W1', inst, 'every field the maps read receives its own parameter; e_ = eccentricity of the ellipsoid of the parameters', fx.rel(f['loc']), 'E-STATE')
 
 
 def check_inverse(fx, R, d, X, Y, L, Ldef, D):
